@@ -47,7 +47,8 @@ def proof_obligations(pid, thorough):
     P = props.PROPS[pid]
     thms = P["theorems"]
     module = "VueJsx.Props.%s" % pid
-    ok, log = runlib.build_lean([module, "vjxmodel"])
+    modules = [module] + list(P.get("extra_modules", []))
+    ok, log = runlib.build_lean(modules + ["vjxmodel"])
     problems = []
     if not ok:
         problems.append("lake build %s failed:\n%s" % (module, log[-3000:]))
@@ -57,7 +58,7 @@ def proof_obligations(pid, thorough):
     discharged = 0
     if ok:
         # axioms of each property theorem
-        audit = "import %s\n" % module + "".join("#print axioms VueJsx.%s\n" % t for t in thms)
+        audit = "".join("import %s\n" % m for m in modules) + "".join("#print axioms VueJsx.%s\n" % t for t in thms)
         tmp = os.path.join(VERIF, ".cache", "Audit_%s.lean" % pid)
         open(tmp, "w").write(audit)
         rc, out, err = runlib.sh(["lake", "env", "lean", tmp], cwd=runlib.LEAN_DIR, timeout=1200)
@@ -74,9 +75,10 @@ def proof_obligations(pid, thorough):
             else:
                 discharged += 1
         if thorough:
-            rc, out, err = runlib.sh(["lake", "env", "leanchecker", module], cwd=runlib.LEAN_DIR, timeout=3000)
-            if rc != 0:
-                problems.append("leanchecker %s failed: %s" % (module, (out + err)[-500:]))
+            for m in modules:
+                rc, out, err = runlib.sh(["lake", "env", "leanchecker", m], cwd=runlib.LEAN_DIR, timeout=3000)
+                if rc != 0:
+                    problems.append("leanchecker %s failed: %s" % (m, (out + err)[-500:]))
     return len(thms), discharged, problems, log
 
 
